@@ -143,7 +143,7 @@ def _run_gamma(scn, continuum, dissim, schedule, faults, cap, sampler=None):
 def run(case):
     scn = copy.deepcopy(case["scenario"])
     continuum = world.build_continuum(scn["continuum"])
-    dissim = world.build_dissim(scn["dissim"])
+    dissim = world.build_dissim(scn["dissim"], fresh=True)   # fresh per run: exact replay in a fresh process
     stats, violations = {}, []
     keys = {"scenarios": [digest(case["scenario"])], "nontrivial": [], "schedules": []}
     if case.get("pre_window") is not None:
